@@ -305,6 +305,49 @@ def t_traj(item):
     return {"E": E, "x": h["coordinates/values"][::stride], "dt": dt}
 
 
+def t_driver_reuse(item):
+    """(f) the SAME driver object runs a second trajectory (another geometry of the same shape): the second run must be
+    the run of a brand-new driver on that molecule - the history buffer is re-initialised from the new converged density"""
+    import contextlib
+    import io
+    import os
+
+    import torch
+
+    engine, k, seed, steps1, steps2 = item
+    p = sp.make_params("AM1", eps=1e-10)
+    base = M.apply(M.get("H2O"), M.generic_rot(seed))
+    other = dict(base)
+    i = np.arange(len(base["species"]))[:, None]
+    other["coords"] = base["coords"] + 0.08 * np.sin(1.7 * i + np.array([[0.3, 1.1, 2.2]]))
+    wd = MD.scratch_dir("vpc09")
+    cwd = os.getcwd()
+    os.chdir(wd)
+    try:
+        def engine_obj():
+            pp = dict(p)
+            sp.build([base], pp)  # a Molecule has to exist before a driver (it records the element list in the settings)
+            md = MD.make_engine(engine, pp, 0.5, 300.0, MD.output_cfg("c09f", [], data=0, coordinates=0, velocities=0, forces=0),
+                                k=k, damp=(20.0 if engine.endswith("damped") else None))  # fmt: skip
+            return md, pp
+
+        def run(mdpp, m, n, sd):
+            md, pp = mdpp
+            molecule, _ = sp.build([m], pp)
+            with contextlib.redirect_stdout(io.StringIO()):
+                md.run(molecule, steps=n, reuse_P=True, remove_com=None, seed=sd)
+            return {"x": sp.to_np(molecule.coordinates), "v": sp.to_np(molecule.velocities), "E": sp.to_np(molecule.Etot), "dm": sp.to_np(molecule.dm)}
+
+        md = engine_obj()
+        run(md, base, steps1, 5)
+        second = run(md, other, steps2, 9)
+        fresh = run(engine_obj(), other, steps2, 9)
+    finally:
+        os.chdir(cwd)
+        MD.rm(wd)
+    return {"dev": {q: float(np.abs(second[q] - fresh[q]).max()) for q in second}}
+
+
 # ------------------------------------------------------------------ driver
 
 
@@ -317,6 +360,22 @@ def run(chk, tier, seed):
         if s0 != 0 or s1 != 0:
             chk.harness_error(f"reference table row k={k} violates sum c_j = 0 / sum j c_j = 0")
             return
+    # ---- (f) driver object reused for a second trajectory
+    items = [(e, k, seed, n1, 4) for e in (("xl", "ksa", "xl_damped") if tier == "quick" else ("xl", "ksa", "xl_damped", "ksa_damped"))
+             for k in ((3, 6) if tier == "quick" else ks) for n1 in ((2, 5) if tier == "quick" else (1, 2, 3, 5, 8))]  # fmt: skip
+    res = pmap(t_driver_reuse, items, chunk=1, timeout=900, progress="C09f driver reuse")
+    for it, r in zip(items, res):
+        key = f"f|{it[0]}|k={it[1]}|first run {it[3]} steps"
+        desc = {"part": "f", "engine": it[0], "k": it[1]}
+        if is_timeout(r) or is_error(r):
+            chk.violation(desc, f"{key}: {str(r)[:300]}", replay={"part": "f", "item": list(it)})
+            continue
+        worst = max(r["dev"].values())
+        chk.case(key, nontrivial=True, outcome=f"{worst:.0e}")
+        chk.traces += 1
+        # measured on the healthy tree: bitwise identical
+        if worst > 1e-12:
+            chk.violation(desc, f"{key}: the second trajectory of a reused driver object differs from that of a new driver: {r['dev']}", replay={"part": "f", "item": list(it)})
     # ---- (a)
     items = []
     for engine in ("xl", "ksa"):
@@ -490,6 +549,10 @@ def run(chk, tier, seed):
 def replay(payload):
     c = payload["replay"]
     part, it = c["part"], c["item"]
+    if part == "f":
+        r = t_driver_reuse(tuple(it))
+        print(r)
+        return max(r["dev"].values()) <= 1e-12
     if part == "a":
         r = t_recurrence(tuple(it))
     elif part == "b":
